@@ -65,6 +65,12 @@ def tsqr(x, compute_svd=False, finalize_svd=True):
         https://arxiv.org/abs/1301.1071
     """
 
+    if any(c < x.shape[1] for c in x.chunks[0]):
+        raise ValueError(
+            "tall-and-skinny QR requires every row chunk to have at least as many rows as the array has columns. "
+            "Consider rechunking so that all row chunks are at least as tall as the array is wide."
+        )
+
     # follows Algorithm 2 from Benson et al, modified for SVD
     Q1, R1 = _qr_first_step(x)
 
